@@ -718,11 +718,15 @@ pub fn compress(values: &[FixWord], max_size: u8) -> (Vec<FixWord>, HashMap<FixW
     //
     // Invariant: delta<lower is never a solution.
     // Because delta must be non-negative, we initialize it to zero.
-    let mut lower = FixWord::ZERO;
+    //
+    // The search is carried out with 64-bit integers: the difference of two 32-bit values
+    // (and the sum of two, for the midpoints below) needs 33 bits.
+    let dedup_values_64: Vec<i64> = dedup_values.iter().map(|v| v.0 as i64).collect();
+    let mut lower = 0_i64;
     // Invariant: delta=upper is always solution.
     // To initialize upper and begin the search we construct a solution that always works: a single
     // interval encompassing the entire slice and the largest delta possible.
-    let max_delta = *dedup_values.last().unwrap() - *dedup_values.first().unwrap();
+    let max_delta = *dedup_values_64.last().unwrap() - *dedup_values_64.first().unwrap();
     let mut upper = max_delta;
     let mut solution = vec![dedup_values.len()];
 
@@ -733,14 +737,14 @@ pub fn compress(values: &[FixWord], max_size: u8) -> (Vec<FixWord>, HashMap<FixW
         // we need to check lower+1.
         let delta = lower + (upper - lower) / 2;
 
-        let mut interval_start = *dedup_values.first().unwrap();
+        let mut interval_start = *dedup_values_64.first().unwrap();
         // The smallest delta such that the candidate solution will be the same.
         // This is the maximum of all gaps that don't start a new interval.
-        let mut delta_lower = FixWord::ZERO;
+        let mut delta_lower = 0_i64;
         // The largest delta such that the candidate solution will be different.
         // This is the minimum of all gaps that start a new interval.
         let mut delta_upper = max_delta;
-        for (i, &v) in dedup_values.iter().enumerate() {
+        for (i, &v) in dedup_values_64.iter().enumerate() {
             let gap = v - interval_start;
             if gap > delta {
                 // We need to start a new interval
@@ -787,7 +791,11 @@ pub fn compress(values: &[FixWord], max_size: u8) -> (Vec<FixWord>, HashMap<FixW
                 .expect("the `result` array contains at least 1 element so this is never 0");
             value_to_index.insert(v, index);
         }
-        let replacement = (*interval.last().unwrap() + *interval.first().unwrap()) / 2;
+        let replacement = FixWord(
+            ((interval.last().unwrap().0 as i64 + interval.first().unwrap().0 as i64) / 2)
+                .try_into()
+                .expect("the midpoint of two i32 values is an i32"),
+        );
         result.push(replacement);
     }
 
